@@ -53,6 +53,9 @@ void h_matchString(void) { Parser *p; char w[8]; w[7] = 0; bool r = Parser_match
 /* ---- matchWordCaseInsensitive ---- */
 DECL_match(Parser_matchWordCaseInsensitive_safe, MATCH_SAFE)
 DECL_match(Parser_matchWordCaseInsensitive_sound, MATCHWORD_SOUND)
+void h_matchWord(void) { Parser *p; char w[8]; w[7] = 0; bool r = Parser_matchWordCaseInsensitive(p, w); IORA_CANARY("h_matchWord: returns");
+  if (r) { IORA_CANARY("h_matchWord: matched"); } else { IORA_CANARY("h_matchWord: no match"); } }
+
 /* ---- readName ---- */
 DECL_readName(Parser_readName_safe, RNAME_SAFE)
 DECL_readName(Parser_readName_run, RNAME_RUN)
